@@ -78,6 +78,12 @@ def placements(k, thorough=False):
     return out
 
 
+def obs_of(ctx, name):
+    """names of the recorded obligations that belong to gate class `name`."""
+    return [o["name"] for o in ctx.obligations
+            if o["name"].startswith("C08_") and (f"_{name}_" in o["name"] or o["name"].endswith(f"_{name}"))]
+
+
 def descr_list(gs):
     return [qgates.gate_descr(g) for g in gs]
 
@@ -260,7 +266,7 @@ def class_search(ctx, raised):
                         Pm = product(dec, n)
                     except Exception as e:
                         ctx.fail(f"raises:{key}", f"{src} of {gate_expr(name, qs, vals)} raises {type(e).__name__}: {e}", code,
-                                 observed=f"{type(e).__name__}: {e}", broken=[f"C08_dec_{name}_asc"])
+                                 observed=f"{type(e).__name__}: {e}", broken=obs_of(ctx, name))
                         continue
                     ok = qgates.phase_equal(Pm, R)
                     same = np.allclose(qgates.gate_full_matrix(g, n), R, atol=1e-12) and list(g.qubits) == q_before
@@ -268,7 +274,7 @@ def class_search(ctx, raised):
                         ctx.fail(key, f"{src} of {gate_expr(name, qs, vals)} on {n} qubits is not the gate's operator up to a global phase"
                                  + ("" if same else " (the gate object was modified by the call)"), code,
                                  expected=str(np.round(R, 5).tolist()), observed=str(np.round(Pm, 5).tolist()),
-                                 broken=[f"C08_dec_{name}_asc", f"C08_dec_{name}_desc", f"C08_dec_{name}_gap", f"C08_tab_{name}_asc"])
+                                 broken=obs_of(ctx, name))
             # second call and parameter update, on a non-ascending placement
             if k and nq <= 3:
                 qs = list(range(nq))[::-1]
@@ -499,7 +505,7 @@ def mcx_search(ctx):
                 bad_search += 1
                 ctx.fail(key, f"X({t}).controlled_by{tuple(cs)}.decompose(*{fs}, use_toffolis={ut}) is not controlled-X ⊗ identity: "
                          f"basis state {where[0]} should go to {where[1]} but goes to {where[2]} with amplitude {where[3]}", code,
-                         expected=f"|{where[1]}>", observed=f"{where[3]}|{where[2]}>", broken=["C08_search_mcx", "C08_corr_mcx_gatelist"])
+                         expected=f"|{where[1]}>", observed=f"{where[3]}|{where[2]}>", broken=["C08_search_mcx", "C08_corr_mcx_gatelist", "C08_corr_mcx_action", "C08_corr_circuit"])
             # the REAL list through the Lean semantics (runS): all basis states for small n
             enc = to_cgates(dec)
             if enc is not None:
@@ -573,7 +579,7 @@ def congruent_search(ctx):
                              PRE + f"qs = {qs}; t = qs[2]; c0, c1 = sorted(qs[:2]); n = {n}\nT = full(gates.TOFFOLI(*qs), n); D = np.eye(2**n)\n"
                              "for i in range(2**n):\n    b = [(i >> (n-1-q)) & 1 for q in range(n)]\n    if b[c0] == 1 and b[c1] == 0 and b[t] == 0: D[i, i] = -1\n"
                              f"E = T if {ut} else T @ D\nassert np.allclose(prod(gates.TOFFOLI(*qs).congruent(use_toffolis={ut}), n), E, atol=1e-9)\n",
-                             broken=["C08_congruent_asc", "C08_congruent_desc", "C08_congruent_rot", "C08_congruent_gap", "C08_search_congruent"])
+                             broken=obs_of(ctx, "congruent") + ["C08_search_congruent", "C08_corr_mcx_action"])
     ctx.ob("C08_search_congruent", bad == 0, "search", "")
 
 
@@ -605,7 +611,7 @@ def grbs_search(ctx):
             if not ok:
                 bad += 1
                 ctx.fail("decompose:GeneralizedRBS", f"GeneralizedRBS({qi},{qo},{th},{ph}).decompose() is not the gate's operator up to a global phase",
-                         code, broken=["C08_search_grbs", "C08_grbs_1_1_phi", "C08_grbs_2_1_phi", "C08_grbs_1_2_phi"])
+                         code, broken=obs_of(ctx, "grbs") + ["C08_search_grbs"])
     ctx.ob("C08_search_grbs", bad == 0, "search", "")
 
 
